@@ -140,6 +140,33 @@ def refine(test, label_true: bool, facts: dict) -> dict | None:
     return f
 
 
+def refine_multi(test, label_true: bool, facts: dict, depth: int = 0) -> list[dict]:
+    """Like refine() but splits `A or B` == True into {A} | {not A, B} and `A and B` == False into {not A} | {A, not B},
+    so that a later `if A: ... elif B: ... else:` sees the else arm as contradictory."""
+    av = eval_expr(test, facts)
+    t = truth(av)
+    if t is not None and t != label_true:
+        return []
+    inner = test
+    neg = False
+    while isinstance(inner, ast.UnaryOp) and isinstance(inner.op, ast.Not):
+        inner = inner.operand
+        neg = not neg
+    want = label_true != neg
+    if depth < 2 and isinstance(inner, ast.BoolOp) and len(inner.values) == 2 and \
+            ((isinstance(inner.op, ast.Or) and want) or (isinstance(inner.op, ast.And) and not want)):
+        a, b = inner.values
+        first = isinstance(inner.op, ast.Or)       # Or-true: a True | (a False, b True) ; And-false: a False | (a True, b False)
+        out = []
+        for fa in refine_multi(a, first, facts, depth + 1):
+            out.append(fa)
+        for fa in refine_multi(a, not first, facts, depth + 1):
+            out.extend(refine_multi(b, first, fa, depth + 1))
+        return out
+    r = refine(test, label_true, facts)
+    return [] if r is None else [r]
+
+
 def _set(f, name, new):
     cur = f.get(name)
     if cur is None:
@@ -218,13 +245,95 @@ class ConstFlow:
                 init[k] = v
             else:
                 init[k] = lit(v)
-        # only facts about names that some test / conditional expression / call argument reads can matter
-        self.relevant = set(init)
-        for n in cfg.nodes:
-            for e in cfg.node_exprs(n):
-                for x in ast.walk(e):
-                    if isinstance(x, ast.Name) and isinstance(x.ctx, ast.Load):
-                        self.relevant.add(x.id)
+        # only facts about names that a test, a conditional expression or a call argument reads can matter
+        pre = getattr(cfg, '_cp_pre', None)
+        if pre is None:
+            relevant = set()
+            walrus, stores = {}, {}
+            for n in cfg.nodes:
+                w, st = [], []
+                for e in cfg.node_exprs(n):
+                    if n.kind == 'test':
+                        for x in ast.walk(e):
+                            if isinstance(x, ast.Name):
+                                relevant.add(x.id)
+                    for x in ast.walk(e):
+                        if isinstance(x, ast.NamedExpr) and isinstance(x.target, ast.Name):
+                            w.append((x.target.id, x.value))
+                        elif isinstance(x, ast.IfExp):
+                            for y in ast.walk(x.test):
+                                if isinstance(y, ast.Name):
+                                    relevant.add(y.id)
+                        elif isinstance(x, ast.Call):
+                            for a in list(x.args) + [k.value for k in x.keywords]:
+                                for y in ast.walk(a):
+                                    if isinstance(y, ast.Name):
+                                        relevant.add(y.id)
+                        elif isinstance(x, ast.Name) and isinstance(x.ctx, ast.Store):
+                            st.append(x.id)
+                walrus[n.id] = w
+                stores[n.id] = st
+            # values copied into a relevant name are relevant too (x = cut; if x: ...)
+            changed = True
+            while changed:
+                changed = False
+                for n in cfg.nodes:
+                    if n.kind == 'stmt' and isinstance(n.ast, (ast.Assign, ast.AnnAssign)) and n.ast.value is not None:
+                        tgs = n.ast.targets if isinstance(n.ast, ast.Assign) else [n.ast.target]
+                        if any(isinstance(t, ast.Name) and t.id in relevant for t in tgs):
+                            for y in ast.walk(n.ast.value):
+                                if isinstance(y, ast.Name) and y.id not in relevant:
+                                    relevant.add(y.id)
+                                    changed = True
+                for nid, w in walrus.items():
+                    for tname, val in w:
+                        if tname in relevant:
+                            for y in ast.walk(val):
+                                if isinstance(y, ast.Name) and y.id not in relevant:
+                                    relevant.add(y.id)
+                                    changed = True
+            # liveness of "decision reads": a fact about v is only worth keeping on an edge into node s if some test,
+            # conditional expression or call argument can still read v from s on before v is rebound
+            uses, defs = {}, {}
+            for n in cfg.nodes:
+                u, d = set(), set()
+                for e in cfg.node_exprs(n):
+                    if n.kind == 'test':
+                        u |= {x.id for x in ast.walk(e) if isinstance(x, ast.Name) and isinstance(x.ctx, ast.Load)}
+                    for x in ast.walk(e):
+                        if isinstance(x, ast.IfExp):
+                            u |= {y.id for y in ast.walk(x.test) if isinstance(y, ast.Name)}
+                        elif isinstance(x, ast.Call):
+                            for a in list(x.args) + [k.value for k in x.keywords]:
+                                u |= {y.id for y in ast.walk(a) if isinstance(y, ast.Name)}
+                        elif isinstance(x, ast.Name) and isinstance(x.ctx, (ast.Store, ast.Del)):
+                            d.add(x.id)
+                    # a copy `v = w` keeps w alive as long as v is (handled conservatively: w is a use)
+                    if n.kind == 'stmt' and isinstance(n.ast, (ast.Assign, ast.AnnAssign)) and n.ast.value is not None:
+                        tg = n.ast.targets if isinstance(n.ast, ast.Assign) else [n.ast.target]
+                        if any(isinstance(t, ast.Name) and t.id in relevant for t in tg):
+                            u |= {y.id for y in ast.walk(n.ast.value) if isinstance(y, ast.Name)}
+                if n.kind == 'iter':
+                    d |= {x.id for x in ast.walk(n.ast.target) if isinstance(x, ast.Name)}
+                if n.kind == 'except' and n.ast.name:
+                    d.add(n.ast.name)
+                uses[n.id], defs[n.id] = u & relevant, d
+            live_in = {n.id: set(uses[n.id]) for n in cfg.nodes}
+            preds = cfg.preds()
+            work = [n.id for n in cfg.nodes]
+            while work:
+                i = work.pop()
+                out = set()
+                for lab, sx in cfg.nodes[i].succ:
+                    out |= live_in[sx]
+                new = uses[i] | (out - defs[i])
+                if new != live_in[i]:
+                    live_in[i] = new
+                    for lab, pid in preds[i]:
+                        work.append(pid)
+            pre = cfg._cp_pre = (relevant, walrus, stores, live_in)
+        self.relevant = set(pre[0]) | set(init)
+        self._walrus, self._stores, self._live_in = pre[1], pre[2], pre[3]
         self.ins = solve(cfg, frozenset({frozenset(init.items())}), self._transfer, self._join)
 
     def all_facts(self, node_id) -> list[dict]:
@@ -247,13 +356,26 @@ class ConstFlow:
 
     def _join(self, a, b):
         u = a | b
-        if len(u) > self.MAX_DISJ:
-            it = iter(u)
-            common = set(next(it))
-            for d in it:
-                common &= d
-            return frozenset({frozenset(common)})
-        return u
+        if len(u) <= self.MAX_DISJ:
+            return u
+        # too many disjuncts: forget variables one at a time (always sound -- fewer facts), each time the variable whose
+        # removal collapses the most disjuncts; the rule's own typestate ($-facts) is never forgotten
+        cur = set(u)
+        while len(cur) > self.MAX_DISJ:
+            names = set()
+            for d in cur:
+                for k, _ in d:
+                    if k[:1] != '$':
+                        names.add(k)
+            if not names:
+                break
+            best, best_set = None, None
+            for nm in sorted(names):
+                proj = {frozenset(x for x in d if x[0] != nm) for d in cur}
+                if best_set is None or len(proj) < len(best_set):
+                    best, best_set = nm, proj
+            cur = best_set
+        return frozenset(cur)
 
     def _transfer(self, node, state):
         outs: dict = {}
@@ -264,17 +386,23 @@ class ConstFlow:
             for lab, v in r.items():
                 if v is None:
                     outs.setdefault(lab, set())
+                elif isinstance(v, list):
+                    outs.setdefault(lab, set()).update(v)
                 else:
                     outs.setdefault(lab, set()).add(v)
         res = {}
         star = outs.get('*')
+        live_by_lab = {}
+        for lab, sx in node.succ:
+            live_by_lab.setdefault(lab, set()).update(self._live_in[sx])
         for lab in ('true', 'false', 'exc', 'next', 'loop'):
-            if lab in outs:
-                res[lab] = frozenset(outs[lab]) or None
-            elif star is not None:
-                res[lab] = frozenset(star) or None
-        if star is not None:
-            res['*'] = frozenset(star) or None
+            src = outs[lab] if lab in outs else star
+            if src is None:
+                continue
+            if lab not in live_by_lab:
+                continue
+            live = live_by_lab[lab]
+            res[lab] = frozenset(frozenset(x for x in d if x[0] in live or x[0][:1] == '$') for d in src) or None
         return res
 
     def _norm(self, facts: dict):
@@ -288,8 +416,14 @@ class ConstFlow:
                 def app(fs):
                     if fs is None:
                         return None
+                    if isinstance(fs, list):
+                        return [app(x) for x in fs]
                     d = dict(fs)
-                    d.update(upd)
+                    for k, v in upd.items():
+                        if v is None:
+                            d.pop(k, None)
+                        else:
+                            d[k] = v
                     return frozenset(d.items())
                 if isinstance(r, dict):
                     r = {lab: (v if lab == 'exc' else app(v)) for lab, v in r.items()}
@@ -303,11 +437,11 @@ class ConstFlow:
         pre = self._norm(facts)
         if node.kind == 'test':
             test = node.ast
-            self._bind_walrus(test, facts)
+            self._bind_walrus_n(node, facts)
             out = {'exc': pre}
             for lab, val in (('true', True), ('false', False)):
-                r = refine(test, val, facts)
-                out[lab] = None if r is None else self._norm(r)
+                rs = refine_multi(test, val, facts)
+                out[lab] = [self._norm(r) for r in rs] if rs else None
             out['next'] = self._norm(facts)
             return out
         if node.kind == 'iter':
@@ -315,7 +449,7 @@ class ConstFlow:
             for x in ast.walk(node.ast.target):
                 if isinstance(x, ast.Name):
                     f2.pop(x.id, None)
-            self._bind_walrus(node.ast.iter, f2)
+            self._bind_walrus_n(node, f2)
             it = eval_expr(node.ast.iter, facts)
             res = {'exc': pre, 'true': self._norm(f2), 'false': self._norm(f2)}
             if truth(it) is False:
@@ -323,10 +457,8 @@ class ConstFlow:
             return res
         if node.kind in ('with', 'case', 'except'):
             f2 = dict(facts)
-            for e in cfg.node_exprs(node):
-                for x in ast.walk(e):
-                    if isinstance(x, ast.Name) and isinstance(x.ctx, ast.Store):
-                        f2.pop(x.id, None)
+            for nm in self._stores[node.id]:
+                f2.pop(nm, None)
             if node.kind == 'except' and node.ast.name:
                 f2.pop(node.ast.name, None)
             return {'exc': pre, '*': self._norm(f2)}
@@ -336,7 +468,7 @@ class ConstFlow:
             if isinstance(st, (ast.FunctionDef, ast.AsyncFunctionDef, ast.ClassDef)):
                 f2.pop(st.name, None)
                 return {'exc': pre, '*': self._norm(f2)}
-            self._bind_walrus(st, f2)
+            self._bind_walrus_n(node, f2)
             for t, v in _assign_targets(st):
                 if isinstance(t, ast.Name):
                     av = eval_expr(v, f2) if v is not None else None
@@ -354,6 +486,14 @@ class ConstFlow:
                         f2.pop(t.id, None)
             return {'exc': pre, '*': self._norm(f2)}
         return pre
+
+    def _bind_walrus_n(self, node, facts):
+        for tname, val in self._walrus[node.id]:
+            av = eval_expr(val, facts)
+            if av is None:
+                facts.pop(tname, None)
+            else:
+                facts[tname] = av
 
     @staticmethod
     def _bind_walrus(e, facts):
